@@ -133,13 +133,6 @@ theorem getN_none_length : (a : VList) → (n : Nat) → a.getN n = none → a.l
     have := getN_none_length xs n h
     simp only [VList.length]; omega
 
-/-- non-negative path: every index segment is `≥ 0`. -/
-def nonNegSeg : Seg → Bool
-  | .field _ => true
-  | .index i => decide (0 ≤ i)
-
-def nonNegPath (p : Path) : Bool := p.all nonNegSeg
-
 /-- field lookup of a kind is sound. -/
 theorem getField_sound (c : Option Value) (K : Kind) (f : Key) (hs : optSorted c = true)
     (h : memOpt c K = true) : memOpt (child c (.field f)) (K.getField f) = true := by
